@@ -62,6 +62,9 @@ _dbus_validate_signature_with_reason (const DBusString *type_str,
 
   int element_count;
   DBusList *element_count_stack;
+  /* which kind of bracket was opened at each nesting level, so that a
+   * closing bracket can be checked against it */
+  char opened_brackets[DBUS_MAXIMUM_TYPE_RECURSION_DEPTH * 2 + 1] = { '\0' };
 
   result = DBUS_VALID;
   element_count_stack = NULL;
@@ -128,6 +131,9 @@ _dbus_validate_signature_with_reason (const DBusString *type_str,
               result = DBUS_INVALID_EXCEEDED_MAXIMUM_STRUCT_RECURSION;
               goto out;
             }
+
+          opened_brackets[struct_depth + dict_entry_depth - 1] =
+            DBUS_STRUCT_BEGIN_CHAR;
           
           if (!_dbus_list_append (&element_count_stack, 
                              _DBUS_INT_TO_POINTER (0)))
@@ -151,6 +157,14 @@ _dbus_validate_signature_with_reason (const DBusString *type_str,
               goto out;
             }
 
+          /* the innermost open bracket must be a '(' */
+          if (opened_brackets[struct_depth + dict_entry_depth - 1] !=
+              DBUS_STRUCT_BEGIN_CHAR)
+            {
+              result = DBUS_INVALID_STRUCT_ENDED_BUT_NOT_STARTED;
+              goto out;
+            }
+
           _dbus_list_pop_last (&element_count_stack);
 
           struct_depth -= 1;
@@ -171,6 +185,9 @@ _dbus_validate_signature_with_reason (const DBusString *type_str,
               goto out;
             }
 
+          opened_brackets[struct_depth + dict_entry_depth - 1] =
+            DBUS_DICT_ENTRY_BEGIN_CHAR;
+
           if (!_dbus_list_append (&element_count_stack, 
                              _DBUS_INT_TO_POINTER (0)))
             {
@@ -182,6 +199,14 @@ _dbus_validate_signature_with_reason (const DBusString *type_str,
 
         case DBUS_DICT_ENTRY_END_CHAR:
           if (dict_entry_depth == 0)
+            {
+              result = DBUS_INVALID_DICT_ENTRY_ENDED_BUT_NOT_STARTED;
+              goto out;
+            }
+
+          /* the innermost open bracket must be a '{' */
+          if (opened_brackets[struct_depth + dict_entry_depth - 1] !=
+              DBUS_DICT_ENTRY_BEGIN_CHAR)
             {
               result = DBUS_INVALID_DICT_ENTRY_ENDED_BUT_NOT_STARTED;
               goto out;
